@@ -11,6 +11,7 @@ import (
 	"verif/mc/props/c11"
 	"verif/mc/props/c12"
 	"verif/mc/props/c13"
+	"verif/mc/props/c14"
 	"verif/mc/props/c19"
 )
 
@@ -24,6 +25,7 @@ func main() {
 		"C11": c11.Prop,
 		"C12": c12.Prop,
 		"C13": c13.Prop,
+		"C14": c14.Prop,
 		"C19": c19.Prop,
 	})
 }
